@@ -8,6 +8,7 @@
 #include <vf/hooks.hpp>
 #include <vf/dense.hpp>
 #include <omp.h>
+#include <array>
 
 using namespace amgcl;
 typedef backend::crs<double> M;
@@ -86,7 +87,11 @@ static void check_product_pair(Case &c, const Csr<double> &A, const Csr<double> 
 static void sub_product_exhaustive() {
     // all pattern pairs for shapes (n x k) * (k x m), n,k,m in 1..3 ; integer values => exact
     long idx = 0;
-    for (int n = 1; n <= 3; ++n) for (int k = 1; k <= 3; ++k) for (int m = 1; m <= 3; ++m) {
+    std::vector<std::array<int, 3>> shapes;
+    for (int n = 1; n <= 3; ++n) for (int k = 1; k <= 3; ++k) for (int m = 1; m <= 3; ++m) shapes.push_back({n, k, m});
+    // wider inner dimension: rows of A with 4..6 entries drive the pairwise-merge loop and the tail merge of the row-merge algorithm
+    shapes.push_back({1, 4, 2}); shapes.push_back({1, 5, 2}); shapes.push_back({2, 4, 2}); shapes.push_back({1, 6, 2}); shapes.push_back({1, 4, 3});
+    for (auto &sh : shapes) { int n = sh[0], k = sh[1], m = sh[2];
         uint64_t na = 1ULL << (n * k), nb = 1ULL << (k * m);
         for (uint64_t ca = 0; ca < na; ca += 64, ++idx) {     // batch: up to 64 A masks x all B masks
             if (!vf::selected("product_exhaustive", idx)) continue;
@@ -99,7 +104,7 @@ static void sub_product_exhaustive() {
             }
         }
     }
-    vf::obs_set("product_exhaustive_space", "all pattern pairs (n x k)(k x m), n,k,m in 1..3, sorted rows, integer values");
+    vf::obs_set("product_exhaustive_space", "all pattern pairs (n x k)(k x m), n,k,m in 1..3, plus shapes (1,4,2) (1,5,2) (2,4,2) (1,6,2) (1,4,3); sorted rows, integer values");
 }
 
 static void sub_product_random() {
